@@ -58,6 +58,13 @@ def ob_step(a: int, b: int, c: int, hold: int) -> bool:
                    old_closed=P.get('old_closed', False), old_closing=P.get('old_closing', False))
     SC.inject(w, ev, a, b, c)
     cover('stepped')
+    if not reconnect_pending(w):
+        return False
+    # the close the agent asked for completes (connectionLost is delivered): a reconnection must still be pending - it
+    # may not hinge on the close never being reported
+    closing = [c_ for c_ in w.reactor.connectors if c_.state == 'connected' and c_.transport.disconnecting]
+    for c_ in closing:
+        w.ev_conn_lost(c_)
     return reconnect_pending(w)
 
 
@@ -216,6 +223,11 @@ def obligations(tier, seed):
     out.append(ob('C02/pending/IDLE/close_done', 'ob_step', {'state': S.IDLE, 'ev': 'close_done', 'closing': True},
                   covers=['stepped']))
     k = 3 if quick else 4
+    for sec in ('open_ok', 'ka'):
+        # the earlier session used another BGP identifier than the cooperative peer will (router replaced / renumbered)
+        out.append(ob('C02/heal/default/peer-id-changes/k=%d/tcp_ok/%s' % (k, sec), 'ob_heal',
+                      {'alphabet': ADV, 'k': k, 'first': ADV.index('tcp_ok'), 'second': ADV.index('open_ok'), 'cfg': {},
+                       'peer_hold': 90, 'vals': {'open_ok': [90, 0x0A000009, 0]}}, covers=['healed'], cap=280 if quick else 1100))
     for cname, cfgd in CONFIGS.items():
         for peer_hold in ([90] if quick else [90, 3, 0]):
             for first_ev in ('tcp_ok', 'tcp_fail', 'timer'):
